@@ -200,6 +200,10 @@ func cmdCheck(args []string) int {
 		}
 	}
 	SolveAll(jobs, dir, timeout, 14)
+	crossConfirmed, crossDisagree := 0, []string(nil)
+	if *tier == "thorough" {
+		crossConfirmed, crossDisagree = CrossCheck(jobs, 8000, 14)
+	}
 
 	findings := loadFindings(filepath.Join(*verif, "known_findings.txt"))
 	base := loadBaseline(filepath.Join(*verif, "baseline"), *prop)
@@ -402,6 +406,10 @@ func cmdCheck(args []string) int {
 			}
 		}
 	}
+	// thorough tier: two solvers contradicting each other on an obligation is not a pass
+	for _, d := range crossDisagree {
+		violate("solver-disagreement/"+d, "an obligation accepted by one solver is refuted by another (thorough-tier cross-check): "+d, "no-failing-input-found", nil, nil)
+	}
 	if nObl == 0 {
 		violations = append(violations, fmt.Sprintf("VIOLATION property=%s replay=%s no-failing-input-found", *prop, filepath.Join(replayDir, *prop+"-no-obligations.json")))
 		writeJSON(filepath.Join(replayDir, *prop+"-no-obligations.json"), map[string]string{"error": "no obligations generated"})
@@ -434,23 +442,24 @@ func cmdCheck(args []string) int {
 			"wall_s":      round3(wall),
 			"violations":  len(violations),
 			"coverage": map[string]interface{}{
-				"obligations":               nObl - nKnown,
-				"discharged":                nDis,
-				"obligations_generated":     nObl,
-				"known_finding_obligations": nKnown,
-				"obligations_note":          "obligations = obligations generated on this run minus those matched by an entry of known_findings.txt (listed under known_findings_hit; they fail and are reported as KNOWN-FINDING, never counted as proved)",
-				"checker_cmd":               fmt.Sprintf("/verif/check %s --tier %s  (govc: go/ssa VC generator over %s; solvers z3-new 5.1.0, z3 4.8.12, cvc5 1.0.3 raced per obligation, timeout %d ms)", *prop, *tier, repoDir, timeout),
-				"trusted_base":              trustedBase(assumptions),
-				"samples":                   samples,
-				"functions_under_contract":  funcsUnder,
-				"discharged_by_solver":      bySolver,
-				"solver_time_s":             round3(solverTime),
-				"known_findings_hit":        knownLines,
-				"undecided_new":             nUndecidedNew,
-				"vacuity_covers":            map[string]int{"total": nCovers, "reached": nCoverSat},
-				"unsupported_constructs":    unsupported,
-				"obligation_list":           reports,
-				"explanation":               "Every obligation is generated from the go/ssa form of /repo's working tree on this run (no hand model); 'discharged' counts solver answers 'unsat' for (facts-before-the-point AND path-condition AND NOT goal). Known findings are obligations that fail on the unchanged tree for a genuine, recorded defect; they are not counted as discharged.",
+				"obligations":                    nObl - nKnown,
+				"discharged":                     nDis,
+				"obligations_generated":          nObl,
+				"known_finding_obligations":      nKnown,
+				"obligations_note":               "obligations = obligations generated on this run minus those matched by an entry of known_findings.txt (listed under known_findings_hit; they fail and are reported as KNOWN-FINDING, never counted as proved)",
+				"checker_cmd":                    fmt.Sprintf("/verif/check %s --tier %s  (govc: go/ssa VC generator over %s; solvers z3-new 5.1.0, z3 4.8.12, cvc5 1.0.3 raced per obligation, timeout %d ms)", *prop, *tier, repoDir, timeout),
+				"trusted_base":                   trustedBase(assumptions),
+				"samples":                        samples,
+				"functions_under_contract":       funcsUnder,
+				"discharged_by_solver":           bySolver,
+				"solver_time_s":                  round3(solverTime),
+				"known_findings_hit":             knownLines,
+				"undecided_new":                  nUndecidedNew,
+				"cross_checked_by_second_solver": crossConfirmed,
+				"vacuity_covers":                 map[string]int{"total": nCovers, "reached": nCoverSat},
+				"unsupported_constructs":         unsupported,
+				"obligation_list":                reports,
+				"explanation":                    "Every obligation is generated from the go/ssa form of /repo's working tree on this run (no hand model); 'discharged' counts solver answers 'unsat' for (facts-before-the-point AND path-condition AND NOT goal). Known findings are obligations that fail on the unchanged tree for a genuine, recorded defect; they are not counted as discharged.",
 			},
 			"assumptions": sortedSet(assumptions),
 		}
